@@ -114,79 +114,82 @@ Definition fn_truncate (fn : fnode) (want : nat) : fnode :=
     let '(l, sz) := grow (S (want - size fn)) (segs fn) (size fn) want in
     {| segs := l; size := sz; repacked := S (repacked fn) |}.
 
-(* One iteration of the Write loop: returns new node, new ptr, number of bytes consumed *)
-Definition write_step (fn : fnode) (p : ptr) (data : list byte) : fnode * ptr * nat :=
+(* One iteration of the Write loop, split by branch so that each has its own lemma.
+   Every branch returns the new node, the new ptr and the number of bytes consumed. *)
+Definition cur_writable (fn : fnode) (p : ptr) : bool :=
+  if idx p <? length (segs fn) then is_mem (nthseg (segs fn) (idx p)) else false.
+
+Definition prev_appendable (l : list seg) (cur : nat) : bool :=
+  match cur with
+  | 0 => false
+  | S prev => (slen (nthseg l prev) <? maxBlock) && is_mem (nthseg l prev)
+  end.
+
+(* ptr after copying n bytes into segment i at offset so0 *)
+Definition ptr_after (l : list seg) (p : ptr) (i so n : nat) (rp : option nat) : ptr :=
+  if slen (nthseg l i) =? so
+  then {| off := off p + n; idx := S i; soff := 0; rep := rp |}
+  else {| off := off p + n; idx := i; soff := so; rep := rp |}.
+
+(* split a non-writable segment: ptr.segmentOff > 0 && !curWritable *)
+Definition ws_split (fn : fnode) (p : ptr) (cando : list byte) : fnode * ptr * nat :=
+  let l := segs fn in let cur := idx p in
+  let mx := slen (nthseg l cur) - soff p in
+  let '(cando, l') :=
+      if mx <=? length cando then
+        let cando := firstn mx cando in
+        (cando, firstn cur l ++ [slice (nthseg l cur) 0 (Some (soff p)); Mem cando] ++ skipn (S cur) l)
+      else
+        (cando, firstn cur l ++ [slice (nthseg l cur) 0 (Some (soff p)); Mem cando;
+                                 slice (nthseg l cur) (soff p + length cando) None] ++ skipn (S cur) l) in
+  let n := length cando in
+  ({| segs := l'; size := size fn; repacked := S (repacked fn) |},
+   ptr_after l' p (S cur) n n (option_map S (rep p)), n).
+
+(* write inside a memSegment *)
+Definition ws_inplace (fn : fnode) (p : ptr) (cando : list byte) : fnode * ptr * nat :=
+  let l := segs fn in let cur := idx p in
+  let cando := firstn (slen (nthseg l cur) - soff p) cando in
+  let n := length cando in
+  let l' := set_nth l cur (Mem (mem_write (sbytes (nthseg l cur)) (soff p) cando)) in
+  ({| segs := l'; size := size fn; repacked := repacked fn |},
+   ptr_after l' p cur (soff p + n) n (rep p), n).
+
+(* shrink cando to what cur allows, and drop / shorten cur (used by the two branches below) *)
+Definition adjust_cur (fn : fnode) (cur : nat) (cando : list byte) : list byte * list seg * nat :=
   let l := segs fn in
-  let cando := firstn maxBlock data in
+  if cur =? length l then (cando, l, size fn + length cando)
+  else if slen (nthseg l cur) <=? length cando then
+    (firstn (slen (nthseg l cur)) cando, firstn cur l ++ skipn (S cur) l, size fn)
+  else (cando, set_nth l cur (slice (nthseg l cur) (length cando) None), size fn).
+
+(* grow the previous memSegment *)
+Definition ws_grow_prev (fn : fnode) (p : ptr) (cando : list byte) : fnode * ptr * nat :=
+  let l := segs fn in let cur := idx p in let prev := pred cur in
+  let cando := firstn (maxBlock - slen (nthseg l prev)) cando in
+  let '(cando, l1, sz) := adjust_cur fn cur cando in
+  let n := length cando in
+  let pb := sbytes (nthseg l1 prev) in
+  let l2 := set_nth l1 prev (Mem (pb ++ cando)) in
+  ({| segs := l2; size := sz; repacked := S (repacked fn) |},
+   ptr_after l2 p prev (length pb + n) n (option_map S (rep p)), n).
+
+(* insert a new memSegment at cur.  Go tests cur < len(segments) AFTER growing the slice, so
+   repacked is always incremented: the "appending does not invalidate ptrs" branch is dead code *)
+Definition ws_insert (fn : fnode) (p : ptr) (cando : list byte) : fnode * ptr * nat :=
   let cur := idx p in
-  let curWritable := if cur <? length l then is_mem (nthseg l cur) else false in
-  let prevAppendable :=
-      match cur with
-      | 0 => false
-      | S prev => (slen (nthseg l prev) <? maxBlock) && is_mem (nthseg l prev)
-      end in
-  if (0 <? soff p) && negb curWritable then
-    (* split a non-writable segment *)
-    let mx := slen (nthseg l cur) - soff p in
-    let '(cando, l') :=
-        if mx <=? length cando then
-          let cando := firstn mx cando in
-          (cando, firstn cur l ++ [slice (nthseg l cur) 0 (Some (soff p)); Mem (repeat 0 (length cando))] ++ skipn (S cur) l)
-        else
-          (cando, firstn cur l ++ [slice (nthseg l cur) 0 (Some (soff p)); Mem (repeat 0 (length cando));
-                                   slice (nthseg l cur) (soff p + length cando) None] ++ skipn (S cur) l) in
-    let i := S cur in
-    let l'' := set_nth l' i (Mem (mem_write (sbytes (nthseg l' i)) 0 cando)) in
-    let n := length cando in
-    let fn' := {| segs := l''; size := size fn; repacked := S (repacked fn) |} in
-    let so := n in
-    let p' := if slen (nthseg l'' i) =? so
-              then {| off := off p + n; idx := S i; soff := 0; rep := option_map S (rep p) |}
-              else {| off := off p + n; idx := i; soff := so; rep := option_map S (rep p) |} in
-    (fn', p', n)
-  else if curWritable then
-    let fit := slen (nthseg l cur) - soff p in
-    let cando := firstn fit cando in
-    let n := length cando in
-    let l' := set_nth l cur (Mem (mem_write (sbytes (nthseg l cur)) (soff p) cando)) in
-    let fn' := {| segs := l'; size := size fn; repacked := repacked fn |} in
-    let so := soff p + n in
-    let p' := if slen (nthseg l' cur) =? so
-              then {| off := off p + n; idx := S cur; soff := 0; rep := rep p |}
-              else {| off := off p + n; idx := cur; soff := so; rep := rep p |} in
-    (fn', p', n)
-  else
-    let prev := pred cur in
-    let cando := if prevAppendable then firstn (maxBlock - slen (nthseg l prev)) cando else cando in
-    (* adjust or drop cur *)
-    let '(cando, l1, sz) :=
-        if cur =? length l then (cando, l, size fn + length cando)
-        else if slen (nthseg l cur) <=? length cando then
-          (firstn (slen (nthseg l cur)) cando, firstn cur l ++ skipn (S cur) l, size fn)
-        else (cando, set_nth l cur (slice (nthseg l cur) (length cando) None), size fn) in
-    let n := length cando in
-    if prevAppendable then
-      let pb := sbytes (nthseg l1 prev) in
-      let so0 := length pb in
-      let l2 := set_nth l1 prev (Mem (mem_write (mem_resize pb (so0 + n)) so0 cando)) in
-      let fn' := {| segs := l2; size := sz; repacked := S (repacked fn) |} in
-      let so := so0 + n in
-      let p' := if slen (nthseg l2 prev) =? so
-                then {| off := off p + n; idx := S prev; soff := 0; rep := option_map S (rep p) |}
-                else {| off := off p + n; idx := prev; soff := so; rep := option_map S (rep p) |} in
-      (fn', p', n)
-    else
-      let l2 := firstn cur l1 ++ Mem cando :: skipn cur l1 in
-      (* Go tests cur < len(segments) AFTER growing the slice, so this is always true:
-         the "appending does not invalidate ptrs" branch is dead code *)
-      let inserted_mid := cur <? length l2 in
-      let rp := if inserted_mid then S (repacked fn) else repacked fn in
-      let fn' := {| segs := l2; size := sz; repacked := rp |} in
-      let prp := if inserted_mid then option_map S (rep p) else rep p in
-      let p' := if slen (nthseg l2 cur) =? n
-                then {| off := off p + n; idx := S cur; soff := 0; rep := prp |}
-                else {| off := off p + n; idx := cur; soff := n; rep := prp |} in
-      (fn', p', n).
+  let '(cando, l1, sz) := adjust_cur fn cur cando in
+  let n := length cando in
+  let l2 := firstn cur l1 ++ Mem cando :: skipn cur l1 in
+  ({| segs := l2; size := sz; repacked := S (repacked fn) |},
+   ptr_after l2 p cur n n (option_map S (rep p)), n).
+
+Definition write_step (fn : fnode) (p : ptr) (data : list byte) : fnode * ptr * nat :=
+  let cando := firstn maxBlock data in
+  if (0 <? soff p) && negb (cur_writable fn p) then ws_split fn p cando
+  else if cur_writable fn p then ws_inplace fn p cando
+  else if prev_appendable (segs fn) (idx p) then ws_grow_prev fn p cando
+  else ws_insert fn p cando.
 
 Fixpoint write_loop (fuel : nat) (fn : fnode) (p : ptr) (data : list byte) : fnode * ptr :=
   match fuel, data with
